@@ -1,5 +1,6 @@
 """Helpers shared by the property modules."""
 import ast
+import re
 
 from sa.absval import Const, Kind
 from sa.expr import txt, match, unawait, dotted, atom
@@ -69,3 +70,32 @@ def literal(e):
         return ast.literal_eval(e)
     except Exception:
         return NotImplemented
+
+
+def or_default(path, value, x, d):
+    """Is ``value`` (text of an expression evaluated on ``path``) the term ``x or d``?
+    ``x or d``, ``x if x else d`` and ``if not x: x = d`` are the same paths: the value is x
+    where the path established that x is truthy and d where it established the opposite."""
+    if value == '%s or %s' % (x, d):
+        return True
+    if value == x and has_guard(path, x, True):
+        return True
+    if value == d and has_guard(path, x, False):
+        return True
+    return False
+
+
+def placeholder_bind(path, idx):
+    """Is event idx of path a placeholder binding (``x = None`` ahead of the real
+    derivation)?  It is when the name is bound again later on the path, or when no later
+    call on the path mentions the name."""
+    e = path.events[idx]
+    if e.kind != 'bind' or txt(e.expr) != 'None':
+        return False
+    name = txt(e.target)
+    later = path.events[idx + 1:]
+    if any(x.kind == 'bind' and x.depth == e.depth and txt(x.target) == name for x in later):
+        return True
+    pat = re.compile(r'(?<![\w.])%s(?![\w])' % re.escape(name))
+    return not any(x.kind == 'call' and x.depth == e.depth and pat.search(txt(x.expr))
+                   for x in later)
